@@ -519,7 +519,56 @@ def root(n: size, x: f32[n], y: f32[n], sc: f32, sc2: f32, flag: bool, flag2: bo
     return GenProgram(HEADER + body, "root", ["subr", "subb"], ["Cfg"], {"template": "config_first_iter", "prefer_ops": ["delete_config", "delete_config", "write_config", "bind_config", "reorder_stmts", "fission", "remove_loop", "unroll_loop"]})
 
 
-ALL = [t_temp2d, t_temp2d_call, t_two_loops, t_reduce_const, t_sliding, t_two_temps, t_split_range, t_writes, t_matmul, t_conv1d, t_blur, t_name_clash, t_config_loop, t_mod_trip, t_quasi, t_config_arg, t_config_first_iter]
+def t_dup_blocks(rng):
+    """a block (allocation, a statement over arguments only, loops over a size) that duplicating
+    rewrites copy (specialize with several conditions, cut_loop, unroll_loop); later rewrites of
+    one copy are checked under that copy's own path condition"""
+    cap = _c(rng, [6, 8])
+    lead = _c(rng, ["y[0] = 0.0", "y[0] = x[0]", "pass", "y[0] += 1.0"])
+    body = f"""@proc
+def root(n: size, x: f32[{cap}], y: f32[{cap}]):
+    assert n <= {cap}
+    t: f32[{cap}]
+    {lead}
+    for i in seq(0, n):
+        t[i] = x[i] * 2.0
+    for i in seq(0, n):
+        y[i] += t[i]
+"""
+    seq = _c(rng, [["specialize", "resize_dim"], ["specialize", "resize_dim"], ["specialize", "specialize", "resize_dim"], ["specialize", "stage_mem"], ["specialize", "divide_dim"], ["specialize", "sink_alloc"]])
+    return GenProgram(HEADER + body, "root", [], [], {"template": "dup_blocks", "op_sequence": seq, "prefer_ops": ["specialize"]})
+
+
+def t_nested_windows(rng):
+    """a window statement cut from a window statement (offsets in both, point indices in the inner
+    one) next to direct accesses of the underlying buffer that do / do not overlap it: every
+    effect-based check has to compose the two windows to see the overlap"""
+    R, C = _c(rng, [6, 8]), 4
+    lo = _c(rng, [0, 1, 2, 2])
+    p_ = _c(rng, [0, 1, 1, 2])
+    clo = _c(rng, [0, 0, 1])
+    row = lo + p_ if rng.random() < 0.6 else _c(rng, [r for r in range(R) if r != lo + p_])
+    inner = _c(rng, [f"w[{p_}, {clo}:{C}]", f"w[{p_}, {clo}:{C}]", f"w[{p_}:{p_ + 1}, {clo}:{C}]"])
+    zi = (lambda j: f"z[{j}]") if ":" not in inner.split(",")[0] else (lambda j: f"z[0, {j}]")
+    n = C - clo
+    a = f"for j in seq(0, {n}):\n        {zi('j')} {_c(rng, ['=', '+='])} {_c(rng, ['1.0', 'y[j]'])}"
+    b = f"for j in seq(0, {n}):\n        x[{row}, j + {clo}] {_c(rng, ['=', '+='])} {_c(rng, ['2.0', 'y[j] * 2.0'])}"
+    c = f"for j in seq(0, {n}):\n        y[j] = x[{row}, j + {clo}] + {zi('j')}"
+    parts = [a, b, c] if rng.random() < 0.5 else [b, a, c]
+    if rng.random() < 0.3:
+        parts = [parts[0], parts[2], parts[1]]
+    body = f"""@proc
+def root(x: f32[{R}, {C}], y: f32[{C}]):
+    w = x[{lo}:{R}, 0:{C}]
+    z = {inner}
+    {parts[0]}
+    {parts[1]}
+    {parts[2]}
+"""
+    return GenProgram(HEADER + body, "root", [], [], {"template": "nested_windows", "prefer_ops": ["reorder_stmts", "reorder_stmts", "fuse", "fission", "remove_loop", "inline_window", "stage_mem", "std.hoist_stmt", "parallelize_loop", "std.auto_stage_mem"]})
+
+
+ALL = [t_temp2d, t_temp2d_call, t_two_loops, t_reduce_const, t_sliding, t_two_temps, t_split_range, t_writes, t_matmul, t_conv1d, t_blur, t_name_clash, t_config_loop, t_mod_trip, t_quasi, t_config_arg, t_config_first_iter, t_dup_blocks, t_nested_windows]
 
 
 def any_template(rng):
